@@ -64,6 +64,7 @@ class C15(WrapHarness):
         out.append({'mode': 'structural', 'feat': 'full', 'gen': 'alpha', 'n': 5 if q else 6,
                     'alphabet': ['a', ' ', '\n', '\r', '-', '>', '你']})
         out.append({'mode': 'structural', 'feat': 'full', 'gen': 'symall', 'n': 3 if q else 4})
+        out += std_tmpl_spaces({'mode': 'structural', 'feat': 'full'}, q, variants=False)
         return out
 
     def bounds_text(self, tier):
